@@ -8,7 +8,8 @@ THEOREMS = ["Cspuz.C06.C06_cycle_regular_aux", "Cspuz.C06.C06_cycle_regular_prim
 def correspond(ctx):
     ctx.extra["rule"] = ("random multigraphs n<=6, edge flags as variables/negations/compound/constants, both routes for the cycle, "
                          "the primitive route for the path; grid frames up to 3x3; emitted program (with the line graph's edge set "
-                         "canonicalised) and the returned is_passed array vs the Lean model")
+                         "canonicalised) and the returned is_passed array vs the Lean model"
+                         " + a handful of deterministic medium / LARGE instances per family (graphs.big_graphs: 40, 70 and 258..319 vertices -- vertex ids beyond CPython's small-int cache, more than 32 / 64 vertices --, boards up to 16x17); about half of the Graph objects are observed part-way through construction (accessors read, every graph constraint posted once on a throw-away Solver) before the remaining edges are added")
     graphcorr.run_cases(ctx, graphcorr.case_cycle, ctx.n(300, 4000), "cycle", with_ids=True, native_sets=True,
                         bigs=graphcorr.graph_bigs() + graphcorr.graph_bigs("sparse"))
     graphcorr.run_cases(ctx, graphcorr.case_path, ctx.n(200, 3000), "path", with_ids=True, native_sets=True, bigs=graphcorr.graph_bigs("sparse"))
@@ -177,38 +178,6 @@ BIG_FRAMES = ((6, 6), (5, 5), (4, 8), (7, 9), (15, 16))
 
 def search(ctx, why, budget=None):
     found = {}
-    # medium / LARGE graphs and frames: several small cycles far apart in the index range (more than 32 / 64 / 256 vertices)
-    for (n, edges) in graphs.big_graphs() + graphs.big_graphs("sparse"):
-        for path in (False, True):
-            for prim in ((True,) if path else (False, True)):
-                key = "big:" + ("path" if path else "cycle") + (":prim" if prim else ":aux")
-                if key in found or (prim and len(edges) > 100 and n > 64):
-                    continue         # (the line graph of a long graph is big; the few-edge large graphs cover the primitive route)
-                try:
-                    bad = _check_edge_patterns(n, edges, prim, path, graphs.edge_patterns(n, edges))
-                except Exception as e:
-                    bad = ("exception", None, core.err_name(e), str(e)[:200])
-                ctx.count("search:" + key)
-                if bad:
-                    found[key] = Finding(
-                        key[4:] + ":large-graph",
-                        f"active_edges_single_{'path' if path else 'cycle'}(use_graph_primitive={prim}) on a graph with {n} vertices and "
-                        f"{len(edges)} edges, active edges ({bad[0]}) = {bad[1] if bad[1] is None or len(bad[1]) <= 14 else str(bad[1][:6]) + ' ... ' + str(bad[1][-6:])}: {bad[2]} but {bad[3]}",
-                        {"big": True, "n": n, "edges": edges, "prim": prim, "path": path, "pattern_name": bad[0], "active_edges": bad[1]})
-    for (H, W) in BIG_FRAMES:
-        for prim in (False, True):
-            key = "big:frame" + (":prim" if prim else ":aux")
-            if key in found or (prim and H * W > 40):
-                continue
-            try:
-                bad = _check_frame_patterns(H, W, prim, graphs.frame_loop_patterns(H, W))
-            except Exception as e:
-                bad = ("exception", None, core.err_name(e), str(e)[:200])
-            ctx.count("search:" + key)
-            if bad:
-                found[key] = Finding("cycle:frame:large", f"active_edges_single_cycle on a {H}x{W} BoolGridFrame (prim={prim}), active segments "
-                                     f"({bad[0]}) = {bad[1]}: {bad[2]} but {bad[3]}",
-                                     {"bigframe": True, "H": H, "W": W, "prim": prim, "pattern_name": bad[0], "segments": bad[1]})
     for (n, edges) in graphs.small_graphs(ctx.rng, budget or ctx.n(24, 50), 5):
         if len(edges) > 8 or any(a == b for a, b in edges):
             continue
@@ -240,6 +209,38 @@ def search(ctx, why, budget=None):
             if bad:
                 found["frame"] = Finding("cycle:frame", f"active_edges_single_cycle on a {H}x{W} BoolGridFrame (prim={prim}) {bad}",
                                          {"H": H, "W": W, "prim": prim, "frame": True})
+    # medium / LARGE graphs and frames: several small cycles far apart in the index range (more than 32 / 64 / 256 vertices)
+    for (n, edges) in graphs.big_graphs() + graphs.big_graphs("sparse"):
+        for path in (False, True):
+            for prim in ((True,) if path else (False, True)):
+                key = "big:" + ("path" if path else "cycle") + (":prim" if prim else ":aux")
+                if key in found or (prim and len(edges) > 100 and n > 64):
+                    continue         # (the line graph of a long graph is big; the few-edge large graphs cover the primitive route)
+                try:
+                    bad = _check_edge_patterns(n, edges, prim, path, graphs.edge_patterns(n, edges))
+                except Exception as e:
+                    bad = ("exception", None, core.err_name(e), str(e)[:200])
+                ctx.count("search:" + key)
+                if bad:
+                    found[key] = Finding(
+                        key[4:] + ":large-graph",
+                        f"active_edges_single_{'path' if path else 'cycle'}(use_graph_primitive={prim}) on a graph with {n} vertices and "
+                        f"{len(edges)} edges, active edges ({bad[0]}) = {bad[1] if bad[1] is None or len(bad[1]) <= 14 else str(bad[1][:6]) + ' ... ' + str(bad[1][-6:])}: {bad[2]} but {bad[3]}" + graphs.history_note(n, edges),
+                        {"big": True, "n": n, "edges": edges, "prim": prim, "path": path, "pattern_name": bad[0], "active_edges": bad[1]})
+    for (H, W) in BIG_FRAMES:
+        for prim in (False, True):
+            key = "big:frame" + (":prim" if prim else ":aux")
+            if key in found or (prim and H * W > 40):
+                continue
+            try:
+                bad = _check_frame_patterns(H, W, prim, graphs.frame_loop_patterns(H, W))
+            except Exception as e:
+                bad = ("exception", None, core.err_name(e), str(e)[:200])
+            ctx.count("search:" + key)
+            if bad:
+                found[key] = Finding("cycle:frame:large", f"active_edges_single_cycle on a {H}x{W} BoolGridFrame (prim={prim}), active segments "
+                                     f"({bad[0]}) = {bad[1]}: {bad[2]} but {bad[3]}",
+                                     {"bigframe": True, "H": H, "W": W, "prim": prim, "pattern_name": bad[0], "segments": bad[1]})
     return list(found.values())
 
 
